@@ -68,6 +68,12 @@ def main():
         units.append(('cast-int-int', op))
         units.append(('cast-flt-flt', op))
     units += [('bool',), ('null',), ('str',)]
+    # the same predicates as the loader builds them from rule text (pattern prefixes, lists of comparisons, cast keys)
+    import templates
+    for fam, name, rule in templates.select(ck.tier, ck.seed):
+        if fam in ('number', 'scalar') or (fam == 'list-mixed' and any(c in name for c in '<>=')) or \
+                (fam == 'modifier' and any(t in name for t in ('int(', 'flt('))) or (fam == 'cast-cond' and 'str' not in name and 'not' not in name and 'Z and' not in name):
+            units.append(('loader', name, rule))
     ck.run_units(units, run_unit)
     ck.finish('comparison arm of solve_expression on symbolic cells and symbolic constants; z3 decides against '
               '65-bit / IEEE relations')
@@ -218,7 +224,45 @@ def field_form(ck, c, op, order, ck_kind):
     return res
 
 
+def loader_unit(ck, name, rule):
+    """rule text -> real loader -> real solver MIR, against the reference interpreter's numeric semantics"""
+    import templates
+    import oracle as O
+    from treelib import TreeRunner, safe
+    yaml = templates.render(rule)
+    br = ck.bridge()
+    r = br.call(cmd='load', yaml=yaml, opts=None)
+    if not r.get('ok'):
+        return
+    tr = TreeRunner(ck, Bounds(str_cap=3 if ck.tier == 'quick' else 4, arr_cap=1, depth=1))
+    tr.uni.numstr_cap = 2
+    try:
+        want = O.Oracle(tr.uni, tr.doc).rule(rule)
+    except O.NotLoadable:
+        return
+    v = tr.evaluate(r)
+    if v['res'] is None:
+        return
+    ck.extra['programs'] = ck.extra.get('programs', 0) + 1
+
+    def on_sat(model):
+        docj = tr.render_doc(model)
+        n = br.call(cmd='eval', yaml=yaml, opts=None, doc=docj, mode='flat')
+        wv = model.eval(want, model_completion=True).as_long()
+        path = ck.write_replay('loader_' + safe(name), {'rule': yaml, 'doc': docj, 'native': n, 'reference': SOLVER_RESULT[wv]})
+        if 'verdict' not in n:
+            return ('spurious', 'native failure')
+        ck.replays_ok += 1
+        if n['verdict'] == (wv == 0):
+            return ('spurious', 'native verdict agrees with the reference')
+        return ('violation', path, '%s: engine=%s, the numeric relation says %s on %s' % (name, n['verdict'], SOLVER_RESULT[wv], json.dumps(docj)))
+    ck.obligation('loader ' + name, tr.uni, (v['res'] == T) != (want == T), sample={'rule': name}, on_sat=on_sat)
+
+
 def run_unit(ck, unit):
+    if unit[0] == 'loader':
+        loader_unit(ck, unit[1], unit[2])
+        return
     c = setup(ck)
     uni, d, n, y, cf, cg, pf, pg = c.uni, c.d, c.n, c.y, c.cf, c.cg, c.pf, c.pg
     kind = unit[0]
